@@ -75,7 +75,11 @@ def build_go(name, srcdir, files=None, tag=None):
         with open(ov, "w") as fh:
             json.dump({"Replace": rep}, fh)
         out = os.path.join(BIN, binname)
-        p = run(["go", "build", "-overlay", ov, "-o", out, "./cmd/" + binname], cwd=REPO, env=GOENV)
+        for attempt in range(3):
+            p = run(["go", "build", "-overlay", ov, "-o", out, "./cmd/" + binname], cwd=REPO, env=GOENV)
+            if p.returncode == 0 or "go-build" not in p.stderr and "is not in std" not in p.stderr:
+                break
+            time.sleep(5)  # a concurrently reset build cache: retry
         if p.returncode != 0:
             return None, p.stderr
         return out, ""
@@ -204,17 +208,15 @@ def default_class(r):
     return re.sub(r"[0-9]+", "N", v)[:160]
 
 
-def trim_go_cache(min_free_gb=60, older_than_min=30):
-    """The labs compile thousands of throw-away packages; their build-cache entries are never
-    reused. When the disk runs low, drop cache entries not touched recently (ordinary cache
-    misses for Go). Runs detached; never blocks a check."""
+def trim_go_cache(min_free_gb=12):
+    """Last resort only: when the disk is critically low, reset the Go build cache with
+    `go clean -cache` (deleting individual cache files by hand corrupts concurrent builds).
+    The labs keep their throw-away packages in a bounded cache of their own (docs/LAB.md)."""
     try:
         import shutil
         if shutil.disk_usage("/").free > min_free_gb * (1 << 30):
             return
-        cache = os.path.expanduser("~/.cache/go-build")
-        subprocess.Popen(["find", cache, "-type", "f", "-mmin", "+%d" % older_than_min, "-delete"],
-                         stdout=subprocess.DEVNULL, stderr=subprocess.DEVNULL)
+        subprocess.run(["go", "clean", "-cache"], cwd=REPO, env=GOENV, capture_output=True, timeout=600)
     except Exception:
         pass
 
